@@ -648,6 +648,9 @@ func acceptedRace(fns []string) bool {
 	if len(fns) != 2 {
 		return false
 	}
+	if fns[0] == "<harness>" && fns[1] == "<harness>" {
+		return true // both accesses are the harness's own: nothing about the repository
+	}
 	slots := map[string]bool{"proc/redis.(*upstream).chooseHost": true, "proc/redis.(*upstream).doSlotsRefresh": true, "proc/redis.parseClusterNodes": true, "proc/redis.parseClusterNodesLine": true}
 	if slots[fns[0]] && slots[fns[1]] {
 		return true
